@@ -114,10 +114,24 @@ func PrepareQuery(ctx context.Context, typ Type, selectionSet *SelectionSet) err
 			return err
 		}
 	}
-	return prepareQuery(ctx, typ, selectionSet)
+	return prepareQuery(ctx, typ, selectionSet, make(map[prepareKey]struct{}))
 }
 
-func prepareQuery(ctx context.Context, typ Type, selectionSet *SelectionSet) error {
+// prepareKey identifies a selection set checked against a type; a fragment
+// spread several times is checked once per type.
+type prepareKey struct {
+	typ          Type
+	selectionSet *SelectionSet
+}
+
+func prepareQuery(ctx context.Context, typ Type, selectionSet *SelectionSet, done map[prepareKey]struct{}) error {
+	if selectionSet != nil {
+		key := prepareKey{typ: typ, selectionSet: selectionSet}
+		if _, ok := done[key]; ok {
+			return nil
+		}
+		done[key] = struct{}{}
+	}
 	verifCount("prepareQuery.visit")
 	switch typ := typ.(type) {
 	case *Scalar:
@@ -140,7 +154,7 @@ func prepareQuery(ctx context.Context, typ Type, selectionSet *SelectionSet) err
 				if fragment.On != typString {
 					continue
 				}
-				if err := prepareQuery(ctx, graphqlTyp, fragment.SelectionSet); err != nil {
+				if err := prepareQuery(ctx, graphqlTyp, fragment.SelectionSet, done); err != nil {
 					return err
 				}
 			}
@@ -194,22 +208,22 @@ func prepareQuery(ctx context.Context, typ Type, selectionSet *SelectionSet) err
 
 			selection.ParentType = typ.Name
 
-			if err := prepareQuery(ctx, field.Type, selection.SelectionSet); err != nil {
+			if err := prepareQuery(ctx, field.Type, selection.SelectionSet, done); err != nil {
 				return err
 			}
 		}
 		for _, fragment := range selectionSet.Fragments {
-			if err := prepareQuery(ctx, typ, fragment.SelectionSet); err != nil {
+			if err := prepareQuery(ctx, typ, fragment.SelectionSet, done); err != nil {
 				return err
 			}
 		}
 		return nil
 
 	case *List:
-		return prepareQuery(ctx, typ.Type, selectionSet)
+		return prepareQuery(ctx, typ.Type, selectionSet, done)
 
 	case *NonNull:
-		return prepareQuery(ctx, typ.Type, selectionSet)
+		return prepareQuery(ctx, typ.Type, selectionSet, done)
 
 	default:
 		panic("unknown type kind")
